@@ -24,5 +24,6 @@ def run(chk):
     chk.exhaustive = True
     cc.run_random(chk, codecprogs.random_codec_program, 6000 if thorough else 1200, 2)
     cc.run_random(chk, codecprogs.random_pattern_program, 3000 if thorough else 500, 22)
+    cc.run_random(chk, codecprogs.equal_but_distinct_program, 1500 if thorough else 300, 23)
     chk.flush()
     return chk.finish(rule=RULE, assumptions=ASSUME + ['sys.byteorder is little (checked by the harness at start-up)'])
